@@ -32,7 +32,10 @@ M == FromRaw(R.spin, R.model)
 Rp == FromRaw(R.result_spin, R.result)
 PairsFun(ps) == [k \in {ps[i][1] : i \in 1..Len(ps)} |-> ps[CHOOSE i \in 1..Len(ps) : ps[i][1] = k][2]]
 
-NoRaise == Clause("NoRaise", ~Case \/ Good \/ R.raise_ok)
+\* not judged: anneal_temperature_range on a model that MENTIONS labels but denotes a constant (a raw dict whose terms
+\* cancel, like a stale model object: variables are only upper bounds there, see DESIGN 5)
+MentionsLabelsButConstant == R.op = "temprange" /\ VarsOf(M) = {} /\ \E i \in 1..Len(R.model) : Len(R.model[i][1]) > 0
+NoRaise == Clause("NoRaise", ~Case \/ Good \/ R.raise_ok \/ MentionsLabelsButConstant)
 ArgUnchanged == Clause("ArgUnchanged", ~Case \/ R.unchanged)
 ResultType == Clause("ResultType", ~(Case /\ Good) \/ R.expect_type = "" \/ R.rtype = R.expect_type)
 
